@@ -232,6 +232,12 @@ def run(ctx):
                             "state_TVN": cfg["states"][0] if cfg["states"] else None,
                             "dA/dV_enclosure": encl(e1[0][1]) if e1 and e1[0] else None,
                             "reported_minus_p_res": cfg["api"][0]["a1"][1] if cfg["api"] and cfg["api"][0] else None})
+    for oc in impl.get("oracle_only", []):
+        fd_states += oc["fd"]["states"]
+        if oc["fd"]["failures"]:
+            V.violation(ctx, "finite-difference oracle on the public API failed for %s (thorough-tier configuration, oracle only in the "
+                        "quick tier): %s" % (oc["name"], oc["fd"]["failures"][0]["quantity"]),
+                        {"broken": "oracle", "config": oc["name"], "failing": oc["fd"]["failures"]}, found_input=True)
     cov = {
         "obligations": obligations, "discharged": discharged,
         "checker_cmd": "make -C coq (coqc 8.16.1) ; coqc coq/gen/C01/<config>.v",
@@ -245,6 +251,7 @@ def run(ctx):
         "widest_relative_enclosure": stats["relwidth"],
         "programs_with_reinjected_f64_values": leaky,
         "finite_difference_oracle_states": fd_states,
+        "configurations_with_the_finite_difference_oracle_only_(quick_tier)": [c["name"] for c in impl.get("oracle_only", [])],
         "tolerance": "reported value within rtol=%g*|value| + %g*ideal-gas-magnitude + enclosure width of the enclosure midpoint" % (RTOL, ATOL_IG),
         "samples": samples,
         "rule": "one program per model configuration; derivative programs of order 1,2,3 by iterating tan_outs; all first and second "
